@@ -314,7 +314,19 @@ func genC03(r *Rand, tier string, i int) *h.Scenario {
 	if tier == "thorough" {
 		p.MaxBars, p.MaxOps = 8, 20
 	}
-	return GenBase(r, &p)
+	sc := GenBase(r, &p)
+	// the library's own counters are findable in the last frame
+	for b := range sc.Bars {
+		for _, l := range [][]h.DecSpec{sc.Bars[b].Pre, sc.Bars[b].App} {
+			for k := range l {
+				switch l[k].Kind {
+				case h.DecCounters, h.DecPercentage, h.DecTotal, h.DecCurrent:
+					l[k].Mark, l[k].Wrap = true, nil
+				}
+			}
+		}
+	}
+	return sc
 }
 
 func flagsOf(completed, aborted bool) string {
@@ -426,6 +438,48 @@ func checkDecorations(hi *Hist, bf *BarFacts, row string, completed, aborted boo
 	if hi.Sc.Cont.Terminal && hi.Sc.Cont.TermW < 150 {
 		return
 	}
+	if bf.Spec.Width > 0 && bf.Spec.Width < 150 {
+		return
+	}
+	// the filler's on-complete / on-abort replacement (the on-abort middleware is applied last, so it is the outer one)
+	if aborted && bf.Spec.FillOnAbort && !strings.Contains(row, h.FillMsg(bf.Idx, 1)) {
+		add("filler-on-abort-missing", "bar %d was aborted but its row does not show the on-abort filler message %q: %q", bf.Idx, h.FillMsg(bf.Idx, 1), row)
+	}
+	if completed && bf.Spec.FillOnComplete && !strings.Contains(row, h.FillMsg(bf.Idx, 0)) {
+		add("filler-on-complete-missing", "bar %d completed but its row does not show the on-complete filler message %q: %q", bf.Idx, h.FillMsg(bf.Idx, 0), row)
+	}
+	if !completed && strings.Contains(row, h.FillMsg(bf.Idx, 0)) {
+		add("filler-on-complete-wrong", "bar %d did not complete but its row shows the on-complete filler message: %q", bf.Idx, row)
+	}
+	if !aborted && strings.Contains(row, h.FillMsg(bf.Idx, 1)) {
+		add("filler-on-abort-wrong", "bar %d was not aborted but its row shows the on-abort filler message: %q", bf.Idx, row)
+	}
+	// the library's own counters / percentage show the final numbers (the spy's, in the same row)
+	if g := spyRe.FindStringSubmatch(row); g != nil {
+		spy := h.SpyRec{Current: int64(atoiDefault(g[2], -1)), Total: int64(atoiDefault(g[3], -1))}
+		for _, m := range markRe.FindAllStringSubmatch(stripSGR(row), -1) {
+			bar, side, ord := atoiDefault(m[2], -1), strings.Index("pa", m[1]), atoiDefault(m[3], -1)
+			if bar != bf.Idx || side < 0 {
+				continue
+			}
+			l := bf.Spec.Pre
+			if side == 1 {
+				l = bf.Spec.App
+			}
+			txt := strings.TrimSpace(m[4])
+			if ord < 0 || ord >= len(l) || strings.Contains(txt, "%!") || spy.Current < 0 || spy.Total < spy.Current {
+				continue
+			}
+			note("c03_final_counters_checked")
+			fadd := func(o, f string, a ...interface{}) { add("final-"+o, "last frame, "+f, a...) }
+			switch l[ord].Kind {
+			case h.DecPercentage:
+				checkPercentage(-1, bar, txt, spy, fadd)
+			case h.DecCounters, h.DecTotal, h.DecCurrent:
+				checkSizes(-1, bar, &l[ord], txt, spy, fadd)
+			}
+		}
+	}
 	for side, list := range [][]h.DecSpec{bf.Spec.Pre, bf.Spec.App} {
 		for ord, d := range list {
 			if d.Kind != h.DecProbe {
@@ -460,7 +514,63 @@ func clip(s string, n int) string {
 // ---------------------------------------------------------------------------
 // C13
 
+// genC13Repeat: a quiet container (idle bars, or none) and one client that writes the very same
+// line again and again, about once per render cycle - consecutive frames are byte-identical.
+func genC13Repeat(r *Rand) *h.Scenario {
+	sc := &h.Scenario{Prop: "C13"}
+	c := &sc.Cont
+	c.Refresh = r.Weighted(6, 4, 0)
+	if c.Refresh == h.RefAuto {
+		c.RateNS = refreshRates[r.Intn(4)]
+	}
+	c.QueueLen = -1
+	if r.Bool(0.4) {
+		c.Terminal, c.TermW, c.TermH = true, 120, r.Range(8, 30)
+	} else {
+		c.Width = 120
+	}
+	nb := r.Range(0, 2)
+	for b := 0; b < nb; b++ {
+		sc.Bars = append(sc.Bars, h.BarSpec{Total: int64(r.Range(2, 9)), QueueAfter: -1, Filler: r.Weighted(2, 0, 0, 2)})
+		sc.Initial = append(sc.Initial, b)
+	}
+	period := c.RateNS
+	line := UserLine(0, 777, "retrying connection...")
+	var ops []h.Op
+	for k, n := 0, r.Range(2, 6); k < n; k++ {
+		if r.Bool(0.25) {
+			ops = append(ops, h.Op{K: h.OpWrite, S: UserLine(0, k, "once")})
+		}
+		ops = append(ops, h.Op{K: h.OpWrite, S: line})
+		if c.Refresh == h.RefManual {
+			ops = append(ops, h.Op{K: h.OpRefresh})
+			if r.Bool(0.3) {
+				ops = append(ops, h.Op{K: h.OpRefresh})
+			}
+		} else {
+			ops = append(ops, h.Op{K: h.OpSleep, D: []int64{period, period, period / 2, 2 * period}[r.Intn(4)]})
+		}
+	}
+	for b := 0; b < nb; b++ {
+		if r.Bool(0.5) {
+			ops = append(ops, h.Op{K: h.OpAbort, Bar: b})
+		} else {
+			ops = append(ops, h.Op{K: h.OpIncr, Bar: b, N: sc.Bars[b].Total})
+		}
+	}
+	if c.Refresh == h.RefManual {
+		ops = append(ops, h.Op{K: h.OpRefresh}, h.Op{K: h.OpRefresh}, h.Op{K: h.OpRefresh})
+	}
+	sc.Clients = [][]h.Op{ops}
+	p := DefaultProfile("C13")
+	sc.Sched = genSched(r, &p)
+	return sc
+}
+
 func genC13(r *Rand, tier string, i int) *h.Scenario {
+	if r.Bool(0.15) {
+		return genC13Repeat(r)
+	}
 	p := DefaultProfile("C13")
 	p.RefreshW = [3]int{6, 3, 0}
 	p.WWrite = 10
@@ -523,6 +633,53 @@ func judgeC13(hi *Hist) []*Violation {
 		lines []string
 	}
 	var writes []wr
+	// a line written by several calls: every successful call's copy is emitted (exactly once each)
+	mult := map[string]int{}
+	multOK := map[string]int{}
+	multLastRet := map[string]int{}
+	multFirstInv := map[string]int{}
+	for _, op := range hi.Ops {
+		if op.Op.K != h.OpWrite {
+			continue
+		}
+		for _, l := range strings.Split(strings.TrimSuffix(op.Op.S, "\n"), "\n") {
+			mult[l]++
+			if op.Ret >= 0 && op.RS == "" && int(op.R) == len(op.Op.S) {
+				multOK[l]++
+				if op.Ret > multLastRet[l] {
+					multLastRet[l] = op.Ret
+				}
+			} else if op.Ret < 0 {
+				multOK[l] = -1 << 30 // one copy still in flight: nothing to count
+			}
+			if _, ok := multFirstInv[l]; !ok {
+				multFirstInv[l] = op.Inv
+			}
+		}
+	}
+	for l, m := range mult {
+		if m < 2 || multOK[l] < 0 {
+			continue
+		}
+		n := len(where[l])
+		note("c13_repeated_lines_checked")
+		switch {
+		case n > multOK[l]:
+			add("emitted-twice", "line %q was written by %d successful Write calls but emitted %d times", l, multOK[l], n)
+		case n < multOK[l] && !fault && multFirstInv[l] >= delayOpenUntil:
+			if AutoMode(hi.Sc) && hi.WaitOut >= 0 {
+				add("lost", "line %q was written by %d successful Write calls but emitted only %d times (Wait has returned)", l, multOK[l], n)
+			}
+			if hi.Sc.Cont.Refresh == h.RefManual {
+				for k := range frames {
+					if cycleFirstEvent(hi, frames, k) > multLastRet[l] && frames[k].W.Err == "" {
+						add("lost", "line %q was written by %d successful Write calls, the last returned before the render cycle of frame %d began, but it was emitted only %d times", l, multOK[l], k, n)
+						break
+					}
+				}
+			}
+		}
+	}
 	for _, op := range hi.Ops {
 		if op.Op.K != h.OpWrite || op.Ret < 0 {
 			continue
@@ -542,6 +699,9 @@ func judgeC13(hi *Hist) []*Violation {
 			}
 		}
 		for _, l := range ls {
+			if mult[l] > 1 {
+				continue // the same line written several times: counted below
+			}
 			note("user_lines_checked")
 			n := len(where[l])
 			switch {
